@@ -12,6 +12,7 @@ import (
 	"encoding/base64"
 	"errors"
 	"fmt"
+	"github.com/hashicorp/go-plugin/internal/verifhook"
 	"hash"
 	"io"
 	"io/ioutil"
@@ -533,6 +534,7 @@ func (c *Client) Kill() {
 		// Close the client to cleanly exit the process.
 		client, err := c.Client()
 		if err == nil {
+			verifhook.Point("client.kill.closing", 0)
 			err = client.Close()
 
 			// If there is no error, then we attempt to wait for a graceful
@@ -738,6 +740,7 @@ func (c *Client) Start() (addr net.Addr, err error) {
 		return nil, err
 	}
 
+	verifhook.Point("client.start.launched", 0)
 	// Make sure the command is properly cleaned up if there is an error
 	defer func() {
 		rErr := recover()
